@@ -204,6 +204,10 @@ impl<'a> RepositoryLoader<'a> {
 
     /// Load and verify TUF repository metadata.
     pub async fn load(self) -> Result<Repository> {
+        #[cfg(tough_verif)]
+        if crate::verif_hooks::trace_enabled() {
+            return crate::verif_hooks::traced_load(self).await;
+        }
         Repository::load(self).await
     }
 
